@@ -2,11 +2,11 @@
 import math, random
 import numpy as np
 from scipy import sparse
-import tvlib, harness_acd
+import tvlib, harness_acd, harness_glm
 import solverlib as sl
 
 GEN_SOURCES = ["skglm/solvers/anderson_cd.py"]
-EXTRA_TARGETS = ["Skel/MockACD.vo"]
+EXTRA_TARGETS = ["Skel/MockACD.vo", "Skel/GlmFit.vo", "Lemmas/GlmStart.vo"]
 TRUSTED_BASE = [
     "Coq 8.16.1 kernel (coqc); vm_compute only in correspondence files",
     "axioms: Reals axioms + funext + classic (consistency theorem over R); the path / history theorems are axiom-free",
@@ -25,13 +25,16 @@ RULE = ("correspondence: real path() on mock kernels for alpha grids of length 1
 
 
 def correspondence(tier, rng):
-    n = 40 if tier == "quick" else 300
+    n = 200 if tier == "quick" else 1500
     pc = harness_acd.make_path_cases(rng, n)
     r1 = tvlib.run_cases(pc, ["Skel.AndersonCD", "Skel.MockACD"], "C05a", shard=10, jobs=16)
     cases, dist = harness_acd.make_cases(rng, n)
     r2 = tvlib.run_cases(cases, ["Skel.AndersonCD", "Skel.MockACD"], "C05b", shard=12, jobs=16)
-    return dict(cases=len(pc) + len(cases), bad=(r1["bad"] + r2["bad"])[:10], errors=r1["errors"] + r2["errors"],
-                distribution=dict(path_histories=len(pc), solve_runs=dist),
+    gc, gdist = harness_glm.make_cases(rng, 12 if tier == "quick" else 120)
+    r3 = tvlib.run_cases(gc, harness_glm.IMPORTS, "C05c", shard=20, jobs=16)
+    return dict(cases=len(pc) + len(cases) + len(gc), bad=(r1["bad"] + r2["bad"] + r3["bad"])[:10],
+                errors=r1["errors"] + r2["errors"] + r3["errors"],
+                distribution=dict(path_histories=len(pc), solve_runs=dist, glm_fit_histories=gdist),
                 distinct_nontrivial=len({c[0] for c in pc}) + sum(1 for c in cases if "w_init=None" not in c[0]),
                 samples=[dict(history=pc[0][0][:600])])
 
@@ -42,7 +45,7 @@ def oracle(tier, rng, deep=False):
     ev = nontriv = 0
     nrep = 30 if tier == "quick" and not deep else 200
     for _ in range(nrep):
-        mode = rng.choice(["warm", "warm", "path", "refit"])
+        mode = rng.choice(["warm", "warm", "path", "refit", "refit", "sqrt_path"])
         dname = rng.choice(["Quadratic", "Logistic", "Huber"])
         ctor, ykind, pgen = sl.DATAFITS[dname]
         X, y = sl.make_problem(rng, kind=ykind)
@@ -107,24 +110,60 @@ def oracle(tier, rng, deep=False):
                             failures.append(dict(site="certificate-on-path:AndersonCD", input=dict(inp, t=t), observed=dict(stop=float(stops[t]), w=w.tolist(), b=float(b)),
                                                  expected=dict(violation=viol, worst=worst)))
                             break
+            elif mode == "sqrt_path":
+                # SqrtLasso.path: every point of the returned path must be stationary for ITS OWN alpha
+                from skglm.experimental.sqrt_lasso import SqrtLasso
+                Xr, yr = sl.make_problem(rng, kind="real")
+                yr = yr + np.array([rng.gauss(0, 0.5) for _ in yr])           # keep the residual away from 0
+                amax_sq = float(np.max(np.abs(Xr.T @ yr))) / float(np.linalg.norm(yr))
+                alphas = np.array([amax_sq * f for f in rng.sample([0.9, 0.7, 0.5, 0.35, 0.2], rng.randint(2, 4))])
+                est = SqrtLasso(tol=1e-9, max_iter=200)
+                al_out, coefs = est.path(Xr, yr, alphas=alphas)[:2]
+                coefs = np.asarray(coefs)
+                if coefs.shape[0] != Xr.shape[1]:
+                    coefs = coefs.T
+                for t_, a in enumerate(al_out):
+                    ev += 1
+                    nontriv += 1
+                    w = coefs[:, t_]
+                    res = yr - Xr @ w
+                    nr = float(np.linalg.norm(res))
+                    if nr < 2e-2 * float(np.linalg.norm(yr)):
+                        continue
+                    gq = -Xr.T @ res / nr
+                    viol = max(max(0.0, abs(gq[j]) - a) if w[j] == 0 else abs(gq[j] + a * np.sign(w[j])) for j in range(Xr.shape[1]))
+                    if viol > 1e-4:
+                        failures.append(dict(site="certificate-on-path:SqrtLasso", input=dict(mode=mode, X=Xr.tolist(), y=yr.tolist(), alphas=list(map(float, al_out)), t=t_),
+                                             observed=dict(w=w.tolist()), expected=dict(violation=viol, alpha=float(a))))
+                        break
             else:
                 from skglm.estimators import Lasso, SparseLogisticRegression
                 if dname == "Huber":
                     continue
                 Est = Lasso if dname == "Quadratic" else SparseLogisticRegression
-                a1, a2 = amax * 0.5, amax * rng.choice([0.05, 0.2])
-                est = Est(alpha=a1, tol=tol, fit_intercept=fi, warm_start=True, max_iter=100)
+                a_cur = amax * 0.5
+                est = Est(alpha=a_cur, tol=tol, fit_intercept=fi, warm_start=True, max_iter=100)
                 est.fit(X, y)
-                est.alpha = a2
-                est.fit(X, y)
-                ev += 1
-                nontriv += 1
-                w, b = np.ravel(est.coef_), float(np.ravel(est.intercept_)[0]) if fi else 0.0
-                if est.stop_crit_ <= tol:
-                    viol, worst = sl.kkt_violation(dname, {}, "L1", dict(alpha=a2), X, y, w, b, fi)
-                    if viol > tol * (1 + 1e-3) + 2e-5:
-                        failures.append(dict(site=f"certificate-after-refit:{Est.__name__}", input=dict(mode=mode, X=X.tolist(), y=y.tolist(), a1=a1, a2=a2, fit_intercept=fi),
-                                             observed=dict(stop=float(est.stop_crit_), w=w.tolist(), b=b), expected=dict(violation=viol, worst=worst)))
+                hist = [dict(alpha=a_cur, fit_intercept=fi)]
+                for _step in range(rng.randint(1, 3)):
+                    ch = rng.choice(["alpha", "fit_intercept", "both"])
+                    if ch in ("alpha", "both"):
+                        a_cur = amax * rng.choice([0.05, 0.2, 0.7])
+                        est.alpha = a_cur
+                    if ch in ("fit_intercept", "both"):
+                        est.fit_intercept = not est.fit_intercept
+                    hist.append(dict(alpha=a_cur, fit_intercept=est.fit_intercept))
+                    est.fit(X, y)
+                    ev += 1
+                    nontriv += 1
+                    fi_now = est.fit_intercept
+                    w, b = np.ravel(est.coef_), (float(np.ravel(est.intercept_)[0]) if fi_now else 0.0)
+                    if est.stop_crit_ <= tol:
+                        viol, worst = sl.kkt_violation(dname, {}, "L1", dict(alpha=a_cur), X, y, w, b, fi_now)
+                        if viol > tol * (1 + 1e-3) + 2e-5:
+                            failures.append(dict(site=f"certificate-after-refit:{Est.__name__}", input=dict(mode=mode, X=X.tolist(), y=y.tolist(), history=hist),
+                                                 observed=dict(stop=float(est.stop_crit_), w=w.tolist(), b=b), expected=dict(violation=viol, worst=worst)))
+                            break
         except (AttributeError, ValueError) as e:
             if "not compatible" in str(e) or "must implement" in str(e) or "Missing" in str(e):
                 continue
